@@ -152,7 +152,40 @@ func (o *Obligation) query(axioms []*Term) *Query {
 	q.Asserts = append(q.Asserts, hyps...)
 	q.Asserts = append(q.Asserts, o.PC)
 	if !o.Cover {
+		skolemKeep = quantIDs(o.Hyps)
+		if os.Getenv("GOVC_DEBUG_KEEP") != "" {
+			n := 0
+			for id := range quantIDs([]*Term{o.Goal}) {
+				if skolemKeep[id] {
+					n++
+				}
+			}
+			fmt.Fprintf(os.Stderr, "DEBUG keep %s: %d of %d goal quantifiers shared with hypotheses\n", o.Name, n, len(quantIDs([]*Term{o.Goal})))
+			if strings.Contains(o.Name, os.Getenv("GOVC_DEBUG_KEEP")) {
+				var pr func(t *Term, d int)
+				seenP := map[int]bool{}
+				pr = func(t *Term, d int) {
+					if seenP[t.id] {
+						return
+					}
+					seenP[t.id] = true
+					if t.op == "forall" {
+						fmt.Fprintf(os.Stderr, "  Q#%d %s\n", t.id, t.render(12))
+					}
+					for _, a := range t.args {
+						pr(a, d+1)
+					}
+				}
+				fmt.Fprintf(os.Stderr, " GOAL:\n")
+				pr(o.Goal, 0)
+				fmt.Fprintf(os.Stderr, " HYPS:\n")
+				for _, h := range o.Hyps {
+					pr(h, 0)
+				}
+			}
+		}
 		goal, sks := skolemize(o.Goal)
+		skolemKeep = nil
 		ng := Not(goal)
 		q.Asserts = append(q.Asserts, ng)
 		var cands []*Term
@@ -297,6 +330,13 @@ func solveFlat(obls []*Obligation, cfg solveCfg) {
 		if !o.Cover {
 			// instances-only variant: quantified hypotheses replaced by their ground instances
 			any := false
+			dropKeep = map[int]bool{}
+			gq := quantIDs([]*Term{o.Goal})
+			for id := range quantIDs(o.Hyps) {
+				if gq[id] {
+					dropKeep[id] = true
+				}
+			}
 			q2 := &Query{Axioms: q.Axioms, GetValues: q.GetValues}
 			for _, a := range q.Asserts {
 				d, dr := dropQuant(a)
@@ -305,6 +345,7 @@ func solveFlat(obls []*Obligation, cfg solveCfg) {
 				}
 				q2.Asserts = append(q2.Asserts, d)
 			}
+			dropKeep = nil
 			if any {
 				txt2, _ := q2.Render(false)
 				j.qfFile = filepath.Join(cfg.dir, fmt.Sprintf("o%05d.inst.smt2", i))
@@ -332,7 +373,12 @@ func solveFlat(obls []*Obligation, cfg solveCfg) {
 				}
 				if !done {
 					t1 := r.secs
-					r = solveQuery(j.file, cfg.fastS, cfg.fullS, cfg.confirm && !o.Cover)
+					lim := cfg.fullS
+					if o.Cover && lim > 20 {
+						// a vacuity cover only matters when it is refuted (unsat), which solvers report fast
+						lim = 20
+					}
+					r = solveQuery(j.file, cfg.fastS, lim, cfg.confirm && !o.Cover)
 					r.secs += t1
 				}
 				o.Solver, o.Time, o.Raw = r.solver, r.secs, r.raw
